@@ -584,6 +584,58 @@ def c07_4(ck, prog):
         r.violation('rule_list_remove_by_connection:owner-test', rl.name, SIG, rl.line,
                     'rules owned by the connection are no longer removed')
 
+    # C07.4b: ... and only those: a rule is removed in the sweep when it belongs to the departing connection or
+    # names the departing connection's own unique name
+    r2 = ck.rule('C07.4b', 'the disconnect sweep removes a rule only when the rule is owned by the departing '
+                 'connection, or its sender= / destination= equals the unique name of the departing connection '
+                 '(obtained from that same connection)', 'TS',
+                 breaks='a connection that is still there loses match rules it never removed: broadcasts it '
+                 'subscribed to stop arriving after somebody else disconnects', floor=1)
+    conn_id = rl.params[1]['id'] if len(rl.params) > 1 else None
+    id2call = {c['id']: c for b, i, c in rl.calls()}
+    nrem = [0]
+
+    def akey(atom, resolve):
+        if atom[0] == 'cmp' and atom[1] == '==':
+            l, rr = atom[2], atom[3]
+            for a, b2 in ((l, rr), (rr, l)):
+                if is_member(a, 'matches_go_to', 'BusMatchRule') and is_ref(b2) and b2.get('id') == conn_id:
+                    return 'owned'
+        return None
+
+    def on_event(user, ev, ctx):
+        if ev['ev'] == 'call' and ev['e'].get('callee') == 'bus_matchmaker_remove_rule_link':
+            nrem[0] += 1
+            if ctx.atom('owned') is True:
+                return user
+            # a strcmp (rule->sender|destination, name) == 0 fact with name = bus_connection_get_name (connection)
+            named = False
+            for cid, c in id2call.items():
+                if c.get('callee') != 'strcmp' or ctx.result_known(cid) is not False:
+                    continue
+                for a in c['args']:
+                    o = ctx.origin_call(a)
+                    if o is not None and id2call.get(o[0], {}).get('callee') == 'bus_connection_get_name':
+                        g = id2call[o[0]]
+                        if g['args'] and is_ref(g['args'][0]) and g['args'][0].get('id') == conn_id:
+                            named = True
+                        else:
+                            ctx.report('a rule is removed because it names %s, which is not the departing connection'
+                                       % estr(g), ev['line'], key='foreign-name')
+                            named = True
+            if not named:
+                ctx.report('a rule is removed in the disconnect sweep although it is neither owned by the departing '
+                           'connection nor found to name it', ev['line'], key='unrelated-rule')
+        return user
+    ex = Explorer(rl, on_event=on_event, atom_key=akey, track='auto', calls={'strcmp', 'bus_connection_get_name'},
+                  cap=400000).run()
+    if not nrem[0]:
+        raise AnalysisBroken('rule_list_remove_by_connection: no removal call found')
+    if ex.reports:
+        r2.from_reports(ex.reports, keyfn=lambda k, rep: 'rule_list_remove_by_connection:%s' % k)
+    else:
+        r2.ok('rule_list_remove_by_connection:only-related-rules')
+
 
 def c07_5(ck, prog):
     r = ck.rule('C07.5', 'AddMatch is undone when its acknowledgement cannot be staged; every recipient of a '
